@@ -10,19 +10,27 @@
 (*   NoOccurrence    a map none of whose keys occurs leaves e as it is       *)
 (*   WellFormedCase  generator sanity: e well-sorted, in normal form,        *)
 (*                   constructible; keys pairwise different                  *)
+(* The cases are spread over NB blocks: an initial state per block, then   *)
+(* one successor per case of the block, so that TLC's workers share the     *)
+(* evaluation of the invariants.                                            *)
 EXTENDS SubstCases
-VARIABLES gi, mi
-Init == gi \in DOMAIN Groups /\ mi \in DOMAIN Groups[gi].ms
-Next == UNCHANGED <<gi, mi>>
+VARIABLES blk, gi, mi
+NB == 64
+Init == blk \in 1..NB /\ gi = 0 /\ mi = 0
+Next == /\ gi = 0 /\ blk' = blk
+        /\ gi' \in {g \in DOMAIN Groups : g % NB = blk % NB}
+        /\ mi' \in DOMAIN Groups[gi'].ms
+Picked == gi # 0
 E == Groups[gi].e
 M == Groups[gi].ms[mi]
 Ref == Subst(E, M)
-LayersAgree == Ref = SubstDecl(E, M)
-Corollary == SemApplicable(E, M) => SemOK(E, M, Ref)
-SortPreserved == MapVerdict(M) # "reject" => WellSorted(Ref)
-NormalForm == NF(Ref)
-NoOccurrence == (\A i \in DOMAIN M : M[i].k \notin Subterms(E)) => Ref = E
-WellFormedCase == /\ WellSorted(E) /\ NF(E) /\ ~ZeroDen(E)
+LayersAgree == Picked => Ref = SubstDecl(E, M)
+Corollary == (Picked /\ SemApplicable(E, M)) => SemOK(E, M, Ref)
+SortPreserved == (Picked /\ MapVerdict(M) # "reject") => WellSorted(Ref)
+NormalForm == Picked => NF(Ref)
+NoOccurrence == (Picked /\ \A i \in DOMAIN M : M[i].k \notin Subterms(E)) => Ref = E
+WellFormedCase == Picked =>
+                  /\ WellSorted(E) /\ NF(E) /\ ~ZeroDen(E)
                   /\ \A i \in DOMAIN M : WellSorted(M[i].k) /\ WellSorted(M[i].v) /\ NF(M[i].k) /\ NF(M[i].v)
                                          /\ ~ZeroDen(M[i].k) /\ ~ZeroDen(M[i].v)
                   /\ \A i \in DOMAIN M : \A j \in DOMAIN M : i # j => M[i].k # M[j].k
